@@ -579,6 +579,57 @@ fn plumbing_case(cfg: &Config, idx: u64, rng: &mut Rng, out: &mut Local) {
         let t1 = Instant::now();
         compare("TextDiff::configure().timeout(d).diff_slices (config reused)", g, Some((t0 + d, t1 + d)), out);
     }
+    // builder call order: other setters after deadline/timeout must not drop it; with both a
+    // deadline and a timeout configured (either order) one of the two must reach the algorithm
+    {
+        let clock = vh::Clock::Fuel(u64::MAX);
+        let t_abs = far + Duration::from_nanos(12_345);
+        let d = Duration::from_secs(3600 * 24 * 40);
+        let mut run = |what: &str, config: &similar::TextDiffConfig, allowed_abs: bool, allowed_rel: bool, out: &mut Local| {
+            vh::set_clock(clock);
+            let t0 = Instant::now();
+            let r = guard(|| config.diff_slices(&ta, &tb).ops().to_vec());
+            let t1 = Instant::now();
+            let probes = vh::probes().0;
+            let seen = vh::last_deadline();
+            vh::set_clock(vh::Clock::Off);
+            out.eval();
+            if r.is_err() {
+                return;
+            }
+            if p > 0 {
+                let ok = match seen {
+                    None => false,
+                    Some(s) => (allowed_abs && s == t_abs) || (allowed_rel && s >= t0 + d && s <= t1 + d),
+                };
+                if probes == 0 || !ok {
+                    out.violation(
+                        "plumbing.builder_order",
+                        format!("{}: alg={} the configured deadline did not reach the algorithm ({} deadline-carrying checks, instant seen matches a configured one: {})", what, alg_name(alg), probes, ok),
+                    );
+                } else {
+                    out.count("builder_order_sequences_verified");
+                }
+            }
+        };
+        let mut c = TextDiff::configure();
+        c.deadline(t_abs).algorithm(alg).newline_terminated(true);
+        run("deadline(t).algorithm(a).newline_terminated(true)", &c, true, false, out);
+        let mut c = TextDiff::configure();
+        c.timeout(d).newline_terminated(false).algorithm(alg);
+        run("timeout(d).newline_terminated(false).algorithm(a)", &c, false, true, out);
+        let mut c = TextDiff::configure();
+        c.algorithm(alg).deadline(t_abs).timeout(d);
+        run("deadline(t).timeout(d)", &c, true, true, out);
+        let mut c = TextDiff::configure();
+        c.algorithm(alg).timeout(d).deadline(t_abs);
+        run("timeout(d).deadline(t)", &c, true, true, out);
+        // a cloned config keeps its deadline
+        let mut c = TextDiff::configure();
+        c.algorithm(alg).deadline(t_abs);
+        let c2 = c.clone();
+        run("configure().deadline(t).clone()", &c2, true, false, out);
+    }
     // no deadline configured => no deadline-carrying check at all
     vh::set_clock(vh::Clock::Fuel(0));
     let r = guard(|| TextDiff::configure().algorithm(alg).diff_slices(&ta, &tb).ops().to_vec());
